@@ -34,6 +34,7 @@ type simScript struct {
 	Coe   bool     `json:"coe"`
 	Deps  [][]int  `json:"deps"`
 	Out   []string `json:"out"`
+	JCtx  []int    `json:"jctx"`
 	Steps []Step   `json:"steps"`
 }
 
@@ -54,7 +55,7 @@ func readScripts(path string, limit int, seed int64) []RunSpec {
 		var s simScript
 		must(json.Unmarshal([]byte(l), &s))
 		rs := RunSpec{Run: len(out) + 1, Seed: seed + int64(len(out)), J: s.NJ, N: s.N, Coe: s.Coe,
-			Deps: s.Deps, Out: s.Out, CancelMode: "none", Script: s.Steps}
+			Deps: s.Deps, Out: s.Out, CancelMode: "none", Cancel2Mode: "none", JCtx: s.JCtx, Script: s.Steps}
 		if rs.Deps == nil {
 			rs.Deps = [][]int{}
 		}
@@ -113,7 +114,7 @@ func (x *exec) scripted(ctx context.Context, cfg scheduler.Config) {
 			deps = append(deps, handles[d])
 		}
 		x.log.Add(vt.APIEvent{Ev: "submit", Run: rs.Run, Job: j})
-		handles[j] = s.Enqueue(ctx, scheduler.Job{Run: x.body(j), Dependencies: deps})
+		handles[j] = s.Enqueue(x.ctxOf(ctx, j), scheduler.Job{Run: x.body(j), Dependencies: deps})
 		next = j + 1
 	}
 	diverged := 0
@@ -139,6 +140,8 @@ func (x *exec) scripted(ctx context.Context, cfg scheduler.Config) {
 			rel(st.Job)
 		case "cancel":
 			x.doCancel()
+		case "cancel2":
+			x.doCancel2()
 		case "close":
 			if !called {
 				for next <= rs.J { // a behaviour always enqueues everything before Wait
